@@ -57,13 +57,20 @@ func drawCtx(t *rapid.T, label string) []byte {
 }
 
 func TestBlinding(t *testing.T) {
-	s := rt.S("blinding").SetRule("seed, two 32-byte blinds (incl. all-zero / all-ff), context (nil, empty, 0x00, leading zeros, 100..400 bytes), message 0..200 bytes; oracle: BlindPublicKeyWithContext == encode([SHA-512(blind||00||ctx)[:32] mod l] * decode(A)) on the math/big Edwards model; BlindKeySignWithContext deterministic, verifies under the blinded key with crypto/ed25519.Verify (and this package's), not under the original key; unblind inverts blind; two blindings commute; changing blind or context (one at a time) changes the key and invalidates the signature; context-free entry points equal the empty-context ones. non-trivial = every case; distinct by (seed, blind, ctx, message)")
+	s := rt.S("blinding").SetRule("seed, two 32-byte blinds (incl. all-zero / all-ff), context (nil, empty, 0x00, leading zeros, 100..400 bytes), message 0..200 bytes (one in six: up to 9000 bytes, around 1024/2048/4096/8192 and those minus 64); oracle: BlindPublicKeyWithContext == encode([SHA-512(blind||00||ctx)[:32] mod l] * decode(A)) on the math/big Edwards model; BlindKeySignWithContext deterministic, verifies under the blinded key with crypto/ed25519.Verify (and this package's), not under the original key; unblind inverts blind; two blindings commute; changing blind or context (one at a time) changes the key and invalidates the signature; context-free entry points equal the empty-context ones. non-trivial = every case; distinct by (seed, blind, ctx, message)")
 	rt.Check(t, 400, 150000, func(t *rapid.T) {
 		seed := gen.Bytes32().Draw(t, "seed")
 		b1 := gen.Bytes32().Draw(t, "blind1")
 		b2 := gen.Bytes32().Draw(t, "blind2")
 		ctx := drawCtx(t, "ctx")
 		msg := gen.Bytes(t, 0, 200, "msg")
+		if gen.Uniform(t, 6, "longmsg") == 0 {
+			n := gen.Pick(t, []int{960, 1023, 1024, 1984, 1985, 2000, 2047, 2048, 2049, 4032, 4033, 4095, 4096, 4097, 8128, 8192, 8193}, "longlen")
+			if rapid.Bool().Draw(t, "anylong") {
+				n = gen.UniformRange(t, 200, 9000, "longany")
+			}
+			msg = gen.Bytes(t, n, n, "longmsgBytes")
+		}
 		s.Eval()
 		s.Nontrivial(seed, b1, ctx, msg)
 		seedBuf := append([]byte{}, seed...)
